@@ -426,6 +426,29 @@ def random_family(idx, rng):
     return fam
 
 
+def settings_family(idx, rng):
+    """command-level settings that ask for something on an empty line, declared on the root type itself: the parse path
+    honours them (derived parser and command agree), the update path must not inherit them"""
+    fam = Family(idx, rng)
+    fam.extras = True
+    enums = []
+    attrs = [["arg_required_else_help = true"], ["subcommand_required = true"], ["arg_required_else_help = true", "subcommand_required = true"]][idx % 3]
+    if idx % 2 == 0:
+        en = sub_enum(fam, rng, enums, 0, derive="Parser", allow_external=False)
+        en["cmd_attrs"] = attrs
+        fam.top = ("enum", en)
+    else:
+        style = "kebab-case"
+        fields = [make_arg(fam, rng, rng.choice(["bool", "opt", "default"]), "str", "long", style),
+                  make_arg(fam, rng, rng.choice(["opt", "vec", "count"]), rng.choice(["str", "i64"]), "long", style)]
+        sub = sub_enum(fam, rng, enums, 1, allow_external=False)
+        fields.append({"kind": "sub", "ident": "_".join(fam.fresh_words()), "inner": sub, "optional": "subcommand_required = true" not in attrs})
+        st = {"rust": fam.fresh_type("S"), "derive": "Parser", "style": None, "fields": fields, "sub": None, "cmd_attrs": attrs}
+        fam.types.append(("struct", st))
+        fam.top = ("struct", st)
+    return fam
+
+
 def extras_family(idx, rng):
     """conditional defaults on plain `T` fields, several alias sources on value-enum variants"""
     fam = Family(idx, rng)
@@ -661,6 +684,7 @@ def emit_struct(st, out, top_name=None):
         cmd.append("name = %s" % rs_str(top_name))
     if st["style"]:
         cmd.append("rename_all = %s" % rs_str(st["style"]))
+    cmd.extend(st.get("cmd_attrs", []))
     if cmd:
         out.append("#[command(%s)]" % ", ".join(cmd))
     out.append("pub struct %s {" % st["rust"])
@@ -681,6 +705,7 @@ def emit_enum(en, out, top_name=None):
         cmd.append("name = %s" % rs_str(top_name))
     if en["style"]:
         cmd.append("rename_all = %s" % rs_str(en["style"]))
+    cmd.extend(en.get("cmd_attrs", []))
     if cmd:
         out.append("#[command(%s)]" % ", ".join(cmd))
     out.append("pub enum %s {" % en["rust"])
@@ -768,6 +793,7 @@ def main():
     ap.add_argument("--start", type=int, default=0, help="index of the first family (type name prefix T<idx>)")
     ap.add_argument("--no-systematic", action="store_true")
     ap.add_argument("--extras", type=int, default=24, help="families with conditional defaults / mixed alias declarations")
+    ap.add_argument("--settings", type=int, default=6, help="families with arg_required_else_help / subcommand_required on the root type")
     a = ap.parse_args()
     rng = random.Random(a.seed)
     fams = []
@@ -791,8 +817,12 @@ def main():
     for _ in range(a.extras):
         fams.append(extras_family(idx, rng2))
         idx += 1
+    rng3 = random.Random(a.seed * 104729 + 5)
+    for _ in range(a.settings):
+        fams.append(settings_family(idx, rng3))
+        idx += 1
     out = []
-    out.append("// @generated by gen_corpus.py --seed %d --random %d --extras %d (%s). Do not edit." % (a.seed, a.random, a.extras, a.module_doc))
+    out.append("// @generated by gen_corpus.py --seed %d --random %d --extras %d --settings %d (%s). Do not edit." % (a.seed, a.random, a.extras, a.settings, a.module_doc))
     out.append("#![allow(non_snake_case, non_camel_case_types, dead_code, clippy::all)]")
     out.append("use crate::desc::*;")
     out.append("use crate::obs::*;")
